@@ -46,10 +46,10 @@ def build_tree(ix, st):
         elems[name] = ("step", status, r)
         return r
 
-    def scenario(name, status, steps):
+    def scenario(name, status, steps, title=None):
         r = st.alloc(HObj(sc, {"st": S(status), "steps": lst(steps), "background": None, "_background_steps": None,
-                               "hook_failed": False, "name": name, "location": name + ":1", "_use_background": True},
-                          label=name))
+                               "hook_failed": False, "name": title or name, "keyword": "Scenario", "location": name + ":1",
+                               "_use_background": True}, label=name))
         elems[name] = ("scenario", status, r)
         return r
 
@@ -62,6 +62,9 @@ def build_tree(ix, st):
     o1 = scenario("O1", "error", [step("st4", "error")])
     o2 = scenario("O2", "hook_error", [step("st5", "hook_error")])
     s3 = scenario("S3", "untested", [step("st6", "untested"), step("st7", "undefined"), step("st8", "skipped")])
+    # two more scenarios that carry the SAME title as S2 / O1 (another rule of the feature): equal by (keyword, name), different objects
+    s2twin = scenario("S2-twin", "failed", [step("st9", "failed")], title="S2")
+    o1twin = scenario("O1-twin", "error", [step("st10", "error")], title="O1")
     rows = lst([o1, o2], "outline rows")
     o = st.alloc(HObj(oc, {"st": S("error"), "_scenarios": lst([], "_scenarios (not built)"), "rows": rows, "steps": lst([]),
                            "background": None, "hook_failed": False, "name": "O", "_background_steps": None}, label="O"))
@@ -70,8 +73,11 @@ def build_tree(ix, st):
                             "hook_failed": False, "name": "R0"}, label="R0"))
     r1 = st.alloc(HObj(rc, {"st": S("failed"), "run_items": lst([s2, o]), "scenarios": lst([s2, o]), "background": None,
                             "hook_failed": False, "name": "R1"}, label="R1"))
-    f = st.alloc(HObj(fc, {"st": S("error"), "run_items": lst([s0, s1, r0, r1, s3]), "scenarios": lst([s0, s1, s3]),
-                           "rules": lst([r0, r1]), "background": None, "hook_failed": False, "name": "F"}, label="F"))
+    r2 = st.alloc(HObj(rc, {"st": S("failed"), "run_items": lst([s2twin, o1twin]), "scenarios": lst([s2twin, o1twin]), "background": None,
+                            "hook_failed": False, "name": "R2"}, label="R2"))
+    elems["R2"] = ("rule", "failed", r2)
+    f = st.alloc(HObj(fc, {"st": S("error"), "run_items": lst([s0, s1, r0, r1, s3, r2]), "scenarios": lst([s0, s1, s3]),
+                           "rules": lst([r0, r1, r2]), "background": None, "hook_failed": False, "name": "F"}, label="F"))
     elems["R0"] = ("rule", "skipped", r0)
     elems["R1"] = ("rule", "failed", r1)
     elems["F"] = ("feature", "error", f)
